@@ -97,12 +97,18 @@ def _rec(s):
             _num(getattr(s, "created_at", None)), _num(getattr(s, "last_activity", None))]
 
 
+_INFO = None
+
+
 def new_handler():
     from chuk_mcp.server.protocol_handler import ProtocolHandler
     from chuk_mcp.protocol.types.info import ServerInfo
     from chuk_mcp.protocol.types.capabilities import ServerCapabilities
 
-    ph = ProtocolHandler(ServerInfo(name="verif", version="1"), ServerCapabilities())
+    global _INFO
+    if _INFO is None:
+        _INFO = (ServerInfo(name="verif", version="1"), ServerCapabilities())
+    ph = ProtocolHandler(*_INFO)
 
     async def h_raises(message, session_id):
         raise RuntimeError("handler failed")
@@ -200,11 +206,13 @@ def run_case(case):
     import random
 
     restore = debug_logging() if case.get("debug") else None
-    rstate = random.getstate()
+    reseeds = any(op[0] == "S" for op in case["ops"])
+    rstate = random.getstate() if reseeds else None
     try:
         return _run_case(case)
     finally:
-        random.setstate(rstate)
+        if reseeds:
+            random.setstate(rstate)
         if restore:
             restore()
 
